@@ -47,7 +47,7 @@ def ctlStr (g : Cfg) (s : St) : String :=
   String.intercalate "," (a :: List.replicate s.mods "Mreo")
 
 def taskStr : TS → String
-  | .none => "none" | .queued => "queued" | .rd _ => "read" | .dec _ => "dec"
+  | .none => "none" | .queued => "queued" | .rd _ _ => "read" | .dec _ => "dec"
 
 def ansStr : Ans → String
   | .data _ b => if b.isEmpty then "zero" else toString b.length
@@ -55,7 +55,7 @@ def ansStr : Ans → String
 
 def stepDesc (s : St) : String :=
   match s.task with
-  | .none => "exit" | .queued => "queued" | .rd a => "read=" ++ ansStr a | .dec v => s!"dec={v}"
+  | .none => "exit" | .queued => "queued" | .rd a _ => "read=" ++ ansStr a | .dec v => s!"dec={v}"
 
 def cerrStr : CErr → String
   | .nil => "nil" | .eof => "eof" | .rderr => "rderr" | .closed => "closed"
@@ -167,7 +167,7 @@ partial def loop (h : IO.FS.Stream) (d : DS) : IO Unit := do
         let d := { d with s }
         let fl : Flags := { inn, out, rdhup := inn && s.k.eof, err := s.k.rerr }
         if !any || !s.k.reg || s.closed then say d "nop"
-        else if (match s.task with | .rd _ => true | _ => false) && (!(inn && !out && !fl.rdhup && !fl.err) || g.mode != .et) then say d "busy"
+        else if (match s.task with | .rd _ _ => true | _ => false) && (!(inn && !out) || g.mode != .et) then say d "busy"
         else
           match deliver d inn out with
           | some s' => say { d with s := s' } ("ev=" ++ flagStr inn out fl.rdhup fl.err)
